@@ -218,9 +218,9 @@ class Family:
                 enc = "utf-16" if i % 12 == 0 else None
                 g.hard = True
             csvkw = None
-            if st == "csv" and (i // 4) % 5 == 2:
+            if st == "csv" and (i // 4) % 3 == 1:
                 # a csv dialect other than the default one (the database is opened with these keyword arguments)
-                csvkw = DIALECTS[(i // 20) % len(DIALECTS)]
+                csvkw = DIALECTS[(i // 12) % len(DIALECTS)]
                 if "newline" in csvkw:
                     g.hard = False            # line breaks in the data are only defined for newline=""
                 elif g.r.random() < 0.6:
